@@ -104,6 +104,10 @@ pub enum SOp {
     SetBlock { secs: u64 },
     /// update_block advancing time by nanoseconds (sub-second block times)
     AdvanceNanos { nanos: u64 },
+    /// the chain operator registers an EXISTING validator once more (`StakeKeeper::add_validator`
+    /// through `App::init_modules`): whatever the answer, delegations, balances and what a later
+    /// slash scales are as before
+    ReAddValidator { v: u8 },
 }
 
 pub fn sop_label(o: &SOp) -> String {
@@ -118,6 +122,7 @@ pub fn sop_label(o: &SOp) -> String {
         SOp::Advance { secs } => format!("advance({}s)", secs),
         SOp::SetBlock { secs } => format!("set_block(+{}s)", secs),
         SOp::AdvanceNanos { nanos } => format!("advance({}ns)", nanos),
+        SOp::ReAddValidator { v } => format!("add_validator_again(v{})", v + 1),
     }
 }
 
@@ -165,6 +170,7 @@ pub fn sop_parse(s: &str, all: &[SOp]) -> SOp {
             Some(n) => SOp::AdvanceNanos { nanos: n.parse().unwrap_or_else(|_| bad()) },
             None => SOp::Advance { secs: args[0].strip_suffix('s').and_then(|x| x.parse().ok()).unwrap_or_else(|| bad()) },
         },
+        ("add_validator_again", 1) => SOp::ReAddValidator { v: idx(args[0], 'v') },
         ("set_block", 1) => SOp::SetBlock { secs: args[0].strip_prefix('+').and_then(|x| x.strip_suffix('s')).and_then(|x| x.parse().ok()).unwrap_or_else(|| bad()) },
         _ => bad(),
     };
@@ -470,6 +476,11 @@ pub fn step(app: &mut SApp, nm: &Names, st: &SState, op: &SOp, cfg: &Cfg, ops_al
             app.set_block(b);
             Ok(())
         }
+        SOp::ReAddValidator { v } => {
+            let block = app.block_info();
+            let val = Validator::create(nm.validators[*v as usize].clone(), Decimal::percent(nm.commissions[*v as usize] as u64), Decimal::percent(100), Decimal::percent(1));
+            app.init_modules(|router, api, storage| router.staking.add_validator(api, storage, &block, val)).map_err(|e| format!("{:#}", e))
+        }
     });
     path.push(ops_all.iter().position(|o| o == op).unwrap_or(0) as u16);
     let res = match res {
@@ -700,6 +711,11 @@ pub fn step(app: &mut SApp, nm: &Names, st: &SState, op: &SOp, cfg: &Cfg, ops_al
                 }
             }
         }
+        SOp::ReAddValidator { .. } => {
+            if post.deleg != pre.deleg || post.bal != pre.bal || post.supply != pre.supply || post.pending != pre.pending {
+                report("slash-base-changed:validator-registered-again", case("registering an existing validator once more (accepted or refused) changes no delegation, balance or shown reward", json!({"result": res.as_ref().map(|_| "Ok").map_err(|e| e.clone()), "delegations_before": format!("{:?}", pre.deleg), "delegations_after": format!("{:?}", post.deleg)})));
+            }
+        }
         SOp::Slash { v, pct } => {
             if *pct > 100 || (*v as usize) >= 2 {
                 must_fail(if *pct > 100 { "fraction-above-one" } else { "unknown-validator" }, report);
@@ -865,6 +881,7 @@ fn op_kind(o: &SOp) -> &'static str {
         SOp::Slash { .. } => "slash",
         SOp::Advance { .. } | SOp::AdvanceNanos { .. } => "update_block",
         SOp::SetBlock { .. } => "set_block",
+        SOp::ReAddValidator { .. } => "add-validator-again",
     }
 }
 
@@ -1260,6 +1277,21 @@ pub fn run_c14(ctx: &Ctx) -> i32 {
     let n0 = invalid_sweep(ctx, &nm, &out0.all, &reduced, &cfg0);
     outs.push(("rate-zero", &out0, reduced.iter().map(sop_label).collect::<Vec<_>>()));
     let n1 = n1 + n0;
+    // an unbonding period of zero: an undelegated amount is due at once, and the very next block
+    // update pays it - also one that only bumps the height, or sets the same block again
+    let alpha_u0 = vec![
+        SOp::Delegate { d: 0, v: 0, amt: 2, denom: 0 },
+        SOp::Delegate { d: 1, v: 0, amt: 3, denom: 0 },
+        SOp::Undelegate { d: 0, v: 0, amt: 1, denom: 0 },
+        SOp::Undelegate { d: 1, v: 0, amt: 2, denom: 0 },
+        SOp::Advance { secs: 0 },
+        SOp::SetBlock { secs: 0 },
+        SOp::Advance { secs: 1 },
+        SOp::Slash { v: 0, pct: 50 },
+    ];
+    let cfg_u0 = Cfg { check_rewards: false, prop: "C14".into(), funds: 10, unbonding: 0, payout_is_home: false, apr_pct: APR_PCT };
+    let out_u0 = explore(ctx, &nm, &alpha_u0, ctx.tier.pick(4, 6), &cfg_u0, true, 1_000_000);
+    outs.push(("unbonding-period-zero", &out_u0, alpha_u0.iter().map(sop_label).collect::<Vec<_>>()));
     finish(ctx, outs, n1 + n2, json!({"maturity_sweep": "in every state with two or more pending unbondings: a block update landing exactly on the earliest maturity, directly and after a 50% slash of either validator", "depth_reduced_alphabet": d_reduced, "depth_full_alphabet": d_full, "invalid_operations_tried_in_every_state": invalid_ops().iter().map(sop_label).collect::<Vec<_>>()}), std_assumptions())
 }
 
@@ -1271,6 +1303,7 @@ pub fn alphabet_c16() -> Vec<SOp> {
         SOp::Undelegate { d: 0, v: 0, amt: 1, denom: 0 },
         SOp::Undelegate { d: 1, v: 1, amt: 2, denom: 0 },
         SOp::Redelegate { d: 1, src: 1, dst: 0, amt: 1 },
+        SOp::ReAddValidator { v: 0 },
         SOp::Advance { secs: 30 },
         // long enough for a few tokens of stake to accrue whole tokens of reward
         SOp::Advance { secs: 10 * YEAR },
